@@ -126,7 +126,7 @@ Bounded == Len(hist) <= DEPTH
 View == <<[i \in Inst |-> [inst[i] EXCEPT !.buf = <<>>]], tbl>>
 
 \* print every explored transition as a replay script for the harness
-Emit == (last'.act \in EMITACTS) => PrintT(<<"TR", ToJson(hist')>>)
+Emit == (last'.act \in EMITACTS) => PrintT("TR|" \o ToJson(hist'))
 
 (* ============================== properties ============================== *)
 (* Each property is a predicate P(L, I0, I1) on the step just taken (L = last', I0 = inst, I1 = inst'), wrapped as *)
